@@ -156,7 +156,9 @@ fn build_history(e: &mut Ent) -> History {
     let sp = if e.chance(1, 2) { 0xfff000 + 4 * e.below(0x300) } else { 0x5e0000 + 4 * e.below(0x4000) };
     er[7] = sp | e.upper_byte();
     let start = hbase + 0x800 + 2 * e.below(0x100);
-    History { prog: Prog { image, er, ccr: e.u8(), pc: start, bus: e.bus_cfg() }, ops }
+    let (ccr, bus) = (e.u8(), e.bus_cfg());
+    image.extend(e.env_noise());
+    History { prog: Prog { image, er, ccr, pc: start, bus }, ops }
 }
 
 /// Err(detail) on violation; Ok((entries, max depth))
